@@ -399,6 +399,15 @@ theorem parse_render (lines : List (List Elem)) (hne : ∀ l ∈ lines, l ≠ []
     rw [h0] at hread
     simp only [List.filterMap_nil] at hread
     rw [← hread]; rfl
-  · rw [parseDirectives_pairs, hread]
+  · rename_i hnonempty
+    rw [values_ccHeader, parseLines_pairs]
+    congr 1
+    clear hv hread hne hnonempty
+    induction lines with
+    | nil => rfl
+    | cons l ls ih =>
+      simp only [List.map_cons, List.flatMap_cons, List.flatten_cons, List.filterMap_append]
+      rw [line_read l (fun e he => ok l List.mem_cons_self e he)]
+      rw [ih (fun l' hl' e he => ok l' (List.mem_cons_of_mem _ hl') e he)]
 
 end Httpcache
